@@ -15,11 +15,12 @@ SPEC = {
         "stream": ("mism_stream", "pf_stream"),
         "convert": ("mism_convert", "pf_convert"),
         "pool": ("mism_pool", "pf_pool"),
+        "big": ("mism_big", "pf_big"),
         "table": ("mism_table", None),
         "consts": ("mism_consts", None),
     },
     "trusted_base": [
-        "hand-written model Model/Framing.v of decodeData/readLoop/convertToMessage, compared on this run with the implementation (decodeData driven through one persistent bytes.Buffer; convertToMessage; ConnectionPool.handleConnection over net.Pipe) on the generated streams",
+        "hand-written model Model/Framing.v of decodeData/readLoop/convertToMessage, compared on this run with the implementation (decodeData driven through one persistent bytes.Buffer; the same reads through the REAL readLoop via a net.Conn that hands out the injected reads; convertToMessage; ConnectionPool.handleConnection over net.Pipe, including frames of 33-300 KB followed at once by further frames) on the generated streams",
         "decoder verdict (panic / error / bytes used) per frame is oracle data taken from the registered type's own Decode (the codecs are the subject of C21)",
         "message-id table and the two length constants are compared with gnet.MessageIDReverseMap / gnet constants on every run",
         "harness printer of inputs/outputs as Coq terms; disconnect reasons identified by sentinel identity",
@@ -32,6 +33,7 @@ SPEC = {
 
 
 def run(ctx):
+    vf.coq_make(["Base/BytesPack.vo"])   # data helpers of the cases files (not a dependency of Properties/C22.vo)
     vf.standard_run(ctx, SPEC)
 
 
